@@ -84,7 +84,7 @@ func (o ofDump[V]) rows() []walkRow {
 	var rows []walkRow
 
 	_, _ = o.c.Walk(func(e cache.EntryOf[V]) error {
-		rows = append(rows, walkRow{key: string(e.Key()), val: e.Value(), e: e.ExpireAt().UnixNano()})
+		rows = append(rows, walkRow{key: string(e.Key()), val: e.Value(), e: normExp(e.ExpireAt()).UnixNano()})
 
 		return nil
 	})
